@@ -19,6 +19,15 @@ Theorem C20_foreign_old_untouched : forall rs w, foreign (old w) = true -> old (
 Proof. exact foreign_old_forever. Qed.
 Print Assumptions C20_foreign_old_untouched.
 
+(* The same on the network path (`record --host`): a foreign DIR makes the run fail and is left alone;
+   a foreign DIR.old is never touched. *)
+Theorem C20_host_foreign_dir_untouched : forall w r, foreign (dir w) = true -> record_run_host true w r = (w, Error).
+Proof. exact host_run_foreign_dir. Qed.
+Print Assumptions C20_host_foreign_dir_untouched.
+Theorem C20_host_foreign_old_untouched : forall w r, foreign (old w) = true -> old (fst (record_run_host true w r)) = old w.
+Proof. exact host_run_foreign_old. Qed.
+Print Assumptions C20_host_foreign_old_untouched.
+
 (* Rotation: an empty/uftrace DIR is kept as DIR.old (replacing only a DIR.old that was
    itself empty/uftrace data or absent) and the run succeeds. *)
 Theorem C20_rotation : forall w r t, dir w = Some t -> can_remove (Some t) = true -> foreign (old w) = false ->
